@@ -388,12 +388,15 @@ Qed.
 (* ---- values that came from the wire are already in the printer's normal form ---- *)
 Theorem norm_from_wire :
   (forall ls, Forall wfb ls -> norm_val P_name (V_name (show_name ls)) = V_name (show_name ls)) /\
-  (forall ws, Forall wfb ws -> norm_val P_qstrs (V_strs (map esc_wire ws)) = V_strs (map esc_wire ws)).
+  (forall ws, Forall wfb ws -> norm_val P_qstrs (V_strs (map esc_wire ws)) = V_strs (map esc_wire ws)) /\
+  (forall lss, Forall (Forall wfb) lss -> norm_val P_names (V_strs (map show_name lss)) = V_strs (map show_name lss)).
 Proof.
-  split.
+  split; [|split].
   - intros ls H. cbn [norm_val]. now rewrite sprint_name_canonical.
   - intros ws H. cbn [norm_val]. f_equal. rewrite map_map. apply map_ext_in. intros w Hw.
     rewrite Forall_forall in H. apply sprint_txt_body_canonical, (H w Hw).
+  - intros lss H. cbn [norm_val]. f_equal. rewrite map_map. apply map_ext_in. intros ls Hl.
+    rewrite Forall_forall in H. apply sprint_name_canonical, (H ls Hl).
 Qed.
 
 (* ---- the irregular printers and parsers ---- *)
@@ -411,9 +414,32 @@ Proof. vm_compute. reflexivity. Qed.
 Theorem mnemonic_roundtrip m n bits r : n < 2 ^ bits ->
   read_single (P_mnem m bits) (TStr (show_mnem m n) :: r) = Ok (V_int n, r).
 Proof.
-  intro H. destruct (single_ok (P_mnem m bits) (V_int n) eq_refl H) as (i & Ei & Er).
-  cbn [field_items] in Ei. injection Ei as <-. exact (Er r).
+  intro H. destruct (single_ok (P_mnem m bits) (V_int n) eq_refl H) as (_ & Er). exact (Er r).
 Qed.
+
+(* B05b.  IPSECKEY with gateway type 2 whose address is ::ffff:192.0.2.38: net.IP.String prints the dotted
+   quad, parseAddrHostUnion refuses it for type 2 (known finding v6-mapped) *)
+Definition G_ipseckey : list pfield := [P_uint 8; P_ipsecgw; P_b64].
+Theorem ipseckey_v4mapped_refuted :
+  present_fields G_ipseckey [V_int 10; V_gw 2 2 (v4mapped [192; 0; 2; 38]) []; V_word [65; 65; 65; 65]]
+    = bytes_of_string "10 2 2 192.0.2.38 AAAA" /\
+  parse_fields G_ipseckey
+    (lex_rdata (present_fields G_ipseckey [V_int 10; V_gw 2 2 (v4mapped [192; 0; 2; 38]) []; V_word [65; 65; 65; 65]] ++ [10]))
+    = Err "gateway".
+Proof. split; vm_compute; reflexivity. Qed.
+(* the same text under gateway type 1 is read as the IPv4-mapped address *)
+Theorem ipseckey_v4_reread :
+  parse_fields G_ipseckey (lex_rdata (bytes_of_string "10 1 2 192.0.2.38 AAAA" ++ [10]))
+    = Ok [V_int 10; V_gw 1 2 (v4mapped [192; 0; 2; 38]) []; V_word [65; 65; 65; 65]].
+Proof. vm_compute. reflexivity. Qed.
+(* HIP with an empty HIT: nothing is printed for it, the key is read as the HIT and the
+   first rendezvous server as the key (known finding Hit/empty) *)
+Definition G_hip : list pfield := [P_uint 8; P_hit; P_pk; P_names].
+Theorem hip_empty_hit_refuted :
+  parse_fields G_hip
+    (lex_rdata (present_fields G_hip [V_int 2; V_sized 0 []; V_sized 3 [65; 119; 69; 65]; V_strs [[97; 46]]] ++ [10]))
+    = Err "pk".
+Proof. vm_compute. reflexivity. Qed.
 
 (* X25 with an empty address prints nothing; the newline token is read as the address *)
 Theorem x25_empty_refuted :
